@@ -190,7 +190,7 @@ def main(argv=None):
             p["seconds"] += o["seconds"]
             if o.get("failing"):          # bounded obligations split over several jobs: union of the failing instances
                 p["failing"] = list(p.get("failing") or []) + list(o["failing"])
-            order = {"refuted": 3, "unknown": 2, "proved": 1}
+            order = {"refuted": 3, "unknown": 2, "proved": 1, "bounded-ok": 0}
             if order[o["status"]] > order[p["status"]]:
                 p.update(status=o["status"], witness=o.get("witness"), reason=o.get("reason"))
         else:
@@ -226,6 +226,10 @@ def main(argv=None):
                 bounded_ok += 1      # BOUNDED stand-in (DESIGN 2.8): checked, listed, never counted as proved
             else:
                 discharged += 1
+            continue
+        if o["status"] == "bounded-ok":
+            # DESIGN 2.8: an exhaustive small-scope run that found nothing is a bounded stand-in, never counted as proved
+            bounded_ok += 1
             continue
         if o["status"] == "unknown":
             if getattr(pack, "REPLAY_UNKNOWN", True):
@@ -296,7 +300,7 @@ def main(argv=None):
     evidence = {
         "property_id": prop, "tier": tier, "seed": seed, "level": "proof",
         "coverage": {
-            "obligations": len(obligations) - under_exclusion - len([o for o in obligations if o.get("bounded") and o["id"] not in covered]),
+            "obligations": len(obligations) - under_exclusion - bounded_ok,
             "discharged": discharged,
             "bounded_checked_not_counted": bounded_ok,
             "obligations_failing_as_recorded_known_findings": under_exclusion,
